@@ -61,3 +61,13 @@ package rotime
 //@   ensures [passes-the-item-and-the-operator-parameters|C18] arg(call.ParseInLocation, 0) == layout && arg(call.ParseInLocation, 1) == value && arg(call.ParseInLocation, 2) == loc
 //@   ensures [returns-its-results|C18] result0 == res(call.ParseInLocation, 0) && result1 == res(call.ParseInLocation, 1)
 
+
+//@ func StartOfDay$1
+//@   note the day is rebuilt from the item's own calendar date and location with time.Date (midnight of that civil day in that zone, whatever the zone's offset did that day): one Date(), one Location(), one time.Date over exactly those
+//@   props C18
+//@   binds value
+//@   maypanic
+//@   track call.*
+//@   ensures [reads-the-civil-date-and-the-zone-of-the-item|C18] count(call.ANY) == 3 && called(call.Time.Date) && called(call.Time.Location) && called(call.Date) && arg(call.Time.Date, 0) == value && arg(call.Time.Location, 0) == value
+//@   ensures [rebuilds-midnight-of-that-date-in-that-zone|C18] arg(call.Date, 0) == res(call.Time.Date, 0) && arg(call.Date, 1) == res(call.Time.Date, 1) && arg(call.Date, 2) == res(call.Time.Date, 2) && arg(call.Date, 3) == 0 && arg(call.Date, 4) == 0 && arg(call.Date, 5) == 0 && arg(call.Date, 6) == 0 && arg(call.Date, 7) == res(call.Time.Location)
+//@   ensures [returns-its-result|C18] result == res(call.Date)
